@@ -11,12 +11,18 @@ def run(tier):
     from harness import C03_gen
     scratch = os.path.join(VERIF, '.scratch')
     name = 'c03_gen_' + tier
-    n = C03_gen.generate(os.path.join(scratch, name + '.py'), 3 if tier == 'thorough' else 2, 5 if tier == 'thorough' else 4)
+    # thorough = every skeleton of length <= 3 over lists of <= 4 elements, plus every skeleton of length <= 2 over lists of
+    # <= 5 (all length-3 skeletons over 5 elements ran for more than an hour on 16 cores: sized by wall time)
+    n = C03_gen.generate(os.path.join(scratch, name + '.py'), 3 if tier == 'thorough' else 2, 4)
+    mods = [name, 'harness.C03_extra']
+    if tier == 'thorough':
+        n = n + C03_gen.generate(os.path.join(scratch, name + '_long.py'), 2, 5)
+        mods.insert(1, name + '_long')
     import sys
     if scratch not in sys.path:
         sys.path.insert(0, scratch)
     return _a.run(
-        PID, tier, [name, 'harness.C03_extra'],
+        PID, tier, mods,
         explanation=f'{len(n)} generated conditions, one per operator skeleton (all sequences of length <= '
                     f'{3 if tier == "thorough" else 2} over map, filter, head, tail, accumulate, batch+unbatch, batch+map(len), '
                     'batch+head+unbatch, batch+tail+unbatch, groupby, peek), plus hand-written conditions for exception '
@@ -28,9 +34,9 @@ def run(tier):
                      'and C08 establish for the threaded implementation (assume-guarantee)',
                      'tail n and exception catalogue indices are concretised by branching (they reach C code)',
                      'random.randrange/shuffle are replaced by a symbolic choice list in the shuffle condition'],
-        outside=['lists longer than the `pre:` bound (4 quick / 5 thorough), skeletons longer than 2 quick / 3 thorough',
+        outside=['lists longer than the `pre:` bound (4; 5 for skeletons of length <= 2 in thorough), skeletons longer than 2 quick / 3 thorough',
                  'groupby groups consumed late', 'non-integer payload arithmetic'],
-        timeout_quick=120, timeout_thorough=400,
+        timeout_quick=120, timeout_thorough=240,
         functions=['mpservice/streamer/_streamer.py:' + c for c in (
             'Stream.map', 'Stream.filter', 'Stream.filter_exceptions', 'Stream.peek', 'Stream.head', 'Stream.tail',
             'Stream.groupby', 'Stream.batch', 'Stream.unbatch', 'Stream.accumulate', 'Stream.shuffle', 'Stream.collect',
